@@ -70,7 +70,7 @@ def run(ctx):
 
     families = []
     m1 = gen("Delta_mc.cfg", defs(P2, 3, 3, "tree", True))
-    families.append(("core", m1.printed("SCRIPT"), ctx.pick(60, 400), 3))
+    families.append(("core", m1.printed("SCRIPT"), ctx.pick(50, 400), 3))
     g = gen("Delta_fallback.cfg", defs(P2, 2, 3, "atomic", True))
     families.append(("fallback", g.printed("SCRIPT"), ctx.pick(20, 200), 3))
     g = gen("Delta_ignore.cfg", defs(PIG3 if T else PIG, 3, ctx.pick(2, 3), "tree", True))
@@ -88,8 +88,9 @@ def run(ctx):
     res = ctx.tlc("Delta", "Delta_ignore_strict.cfg", timeout=1800, count=False, defines=defs(PIG, 3, 2, "tree", False))
     if res.invariant != "BranchViewsStrict":
         raise vk.Inconclusive("the ignore-file deviation is not reachable in the model (vacuous): %s" % res.log)
-    # ... and hold when delta builds apply the unchanged ignore file (the proposed fix)
-    ctx.model_check("Delta", "Delta_ignore_fixed.cfg", timeout=1800, count=False, defines=defs(PIG, 3, ctx.pick(2, 3), "tree", False))
+    # ... and hold when delta builds apply the unchanged ignore file (the proposed fix; thorough)
+    if T:
+        ctx.model_check("Delta", "Delta_ignore_fixed.cfg", timeout=14400, count=False, defines=defs(PIG, 3, 3, "tree", False))
 
     scripts = []
     fam_of = []
